@@ -23,8 +23,10 @@ Eps  == "1e-9"
 BandOf == IF "exact" \in DOMAIN Traces[tid] /\ Traces[tid].exact THEN "-1" ELSE Band
 
 Tr == Traces[tid]
-Ch == Tr.elems
 Op == Tr.ops[oi]
+\* the chain as declared during the epoch of the current operation (relations may be re-declared between epochs)
+Ch == IF "elems_by_epoch" \in DOMAIN Tr /\ oi <= Len(Tr.ops) /\ "epoch" \in DOMAIN Tr.ops[oi] /\ Tr.ops[oi].epoch <= Len(Tr.elems_by_epoch)
+      THEN Tr.elems_by_epoch[Tr.ops[oi].epoch] ELSE Tr.elems
 Ep(r) == Tr.epochs[r.epoch]
 
 Get(rec, f) == IF f \in DOMAIN rec THEN rec[f] ELSE <<>>
@@ -252,7 +254,7 @@ Report(f, j) == f # {} => PrintT("V|" \o Tr.id \o "|FAIL|" \o JoinSet(Tag(f, j))
 
 Init == tid \in 1..Len(Traces) /\ oi = 1 /\ ph = "op" /\ k = 0 /\ lk = <<>> /\ nf = 0
 
-Skip == /\ ph = "op" /\ oi <= Len(Tr.ops) /\ Op.op \in {"set_initial", "set_pwm"}
+Skip == /\ ph = "op" /\ oi <= Len(Tr.ops) /\ Op.op \in {"set_initial", "set_pwm", "redeclare"}
         /\ oi' = oi + 1 /\ UNCHANGED <<tid, ph, k, lk, nf>>
 
 NewSolver == /\ ph = "op" /\ oi <= Len(Tr.ops) /\ Op.op = "new_solver"
